@@ -60,8 +60,7 @@ impl<T: Send + Sync> ConIterOfVec<T> {
         let len = end_idx - begin_idx;
 
         let ptr = vec.as_mut_ptr().add(begin_idx);
-        let vec = Vec::from_raw_parts(ptr, len, 0);
-        vec.into_iter()
+        TakenSlice::new(ptr, len)
     }
 
     unsafe fn split_off_right(&self, left_len: usize) -> Vec<T> {
@@ -74,6 +73,62 @@ impl<T: Send + Sync> ConIterOfVec<T> {
         right_vec
     }
 }
+
+/// Owning iterator over `len` consecutive initialized elements starting at `ptr`.
+///
+/// Elements which are not yielded are dropped in place when the iterator is dropped;
+/// the memory holding the elements is neither owned nor released by the iterator.
+pub(crate) struct TakenSlice<T> {
+    ptr: *mut T,
+    idx: usize,
+    len: usize,
+}
+
+impl<T> TakenSlice<T> {
+    /// # Safety
+    ///
+    /// `ptr` must point to `len` consecutive initialized elements which are not accessed by anyone else.
+    pub(crate) unsafe fn new(ptr: *mut T, len: usize) -> Self {
+        Self { ptr, idx: 0, len }
+    }
+}
+
+impl<T> Iterator for TakenSlice<T> {
+    type Item = T;
+
+    #[inline]
+    fn next(&mut self) -> Option<T> {
+        match self.idx < self.len {
+            true => {
+                let value = unsafe { self.ptr.add(self.idx).read() };
+                self.idx += 1;
+                Some(value)
+            }
+            false => None,
+        }
+    }
+
+    #[inline]
+    fn size_hint(&self) -> (usize, Option<usize>) {
+        let remaining = self.len - self.idx;
+        (remaining, Some(remaining))
+    }
+}
+
+impl<T> ExactSizeIterator for TakenSlice<T> {}
+
+impl<T> Drop for TakenSlice<T> {
+    fn drop(&mut self) {
+        let remaining = self.len - self.idx;
+        let slice = std::ptr::slice_from_raw_parts_mut(unsafe { self.ptr.add(self.idx) }, remaining);
+        self.idx = self.len;
+        unsafe { std::ptr::drop_in_place(slice) };
+    }
+}
+
+unsafe impl<T: Send> Send for TakenSlice<T> {}
+
+unsafe impl<T: Sync> Sync for TakenSlice<T> {}
 
 impl<T: Send + Sync> From<Vec<T>> for ConIterOfVec<T> {
     /// Consumes and creates a concurrent iterator of the given `vec`.
